@@ -5,7 +5,6 @@ import (
 	"go/ast"
 	"go/types"
 	"runtime/debug"
-	"strings"
 )
 
 // FuncResult is the outcome of generating obligations for one function.
@@ -108,7 +107,7 @@ func (x *Exec) run(res *FuncResult) {
 	x.assumeWF(st)
 	x.wrapCfail("precondition of "+c.Key, func() {
 		for _, r := range c.Requires {
-			x.assume(st, env.Formula(r.Expr))
+			x.assume(st, env.HypFormula(r.Expr))
 		}
 	})
 	for _, u := range c.Uses {
@@ -181,8 +180,8 @@ func (x *Exec) checkPost(st *St, fr *Frame, v *Val, names map[string]*Val) {
 		}
 	})
 	x.assertWF(st, "exit", "")
-	if !x.canaryDone {
-		x.canaryDone = true
+	if x.ncanary < 12 {
+		x.ncanary++
 		x.Obls = append(x.Obls, &Obligation{Name: fi.Key + "/canary#exit", Func: fi.Key, Kind: "canary", Label: "exit", Canary: true,
 			Hyps: append([]*Term(nil), st.pc...), Goal: False, Clause: "hypotheses at the first exit are consistent", Trace: st.trace})
 	}
@@ -243,7 +242,8 @@ func (w *World) lemmaAxiom(x *Exec, lc *Contract, lf *FuncInfo) *Term {
 		hst.heap[r] = v
 	}
 	sub.heapVars = nil
-	env := &CEnv{X: sub, Names: names, St: hst, Pkg: lf.Pkg}
+	fuelVar := Var("fu$l", SFuel)
+	env := &CEnv{X: sub, Names: names, St: hst, Pkg: lf.Pkg, Fuel: fuelVar}
 	var pre, post []*Term
 	for _, r := range lc.Requires {
 		pre = append(pre, env.Formula(r.Expr))
@@ -252,17 +252,44 @@ func (w *World) lemmaAxiom(x *Exec, lc *Contract, lf *FuncInfo) *Term {
 		post = append(post, env.Formula(e.Expr))
 	}
 	var pats [][]*Term
-	if lc.Decreases != nil || true {
-		// trigger: explicit "trigger" requires-label convention: a requires clause labelled trig gives the pattern terms
-	}
-	for _, r := range lc.Requires {
-		if strings.HasPrefix(r.Label, "trig") {
-			// the atoms of the clause are the multi-pattern
-			pats = append(pats, splitAnd(env.Formula(r.Expr)))
+	for _, tg := range lc.Triggers {
+		var p []*Term
+		for _, te := range tg {
+			p = append(p, env.tr(te).T)
 		}
+		pats = append(pats, p)
+	}
+	if !(lc.Flags["nowf"] || lc.Flags["pure"]) && len(w.CS.GlobalInvs) > 0 {
+		// the lemma was proved under the global invariant: its axiom is conditional on $WF of the same heap;
+		// heap components the lemma itself does not read are universally quantified as well
+		wfx := &Exec{W: w, Fn: lf}
+		for _, k := range sortedKeys(w.wfFields(wfx)) {
+			if _, ok := hst.heap[k]; !ok {
+				v := Var("h$"+k, w.keySort(k))
+				hst.heap[k] = v
+				vars = append(vars, v)
+			}
+		}
+		pre = append([]*Term{wfx.wfAtom(hst)}, pre...)
 	}
 	x.ids = sub.ids
-	return Forall(vars, pats, Implies(And(append(guards, pre...)...), And(post...)), "lemma."+lc.Key)
+	body := Implies(And(append(guards, pre...)...), And(post...))
+	fuelInPat := false
+	for _, p := range pats {
+		for _, pt := range p {
+			syms := map[string]Sort{}
+			pt.Collect(map[string]bool{}, syms, map[string]bool{})
+			if _, ok := syms[fuelVar.Op]; ok {
+				fuelInPat = true
+			}
+		}
+	}
+	if fuelInPat {
+		vars = append(vars, fuelVar)
+	} else {
+		body = body.Subst(map[string]*Term{fuelVar.Op: baseFuel})
+	}
+	return Forall(vars, pats, body, "lemma."+lc.Key)
 }
 
 // FuncKeysWithContracts lists the function contracts (not loops) bound to repository functions.
